@@ -235,11 +235,11 @@ let h_hist (a : string array) : string =
     end
   with Model_err e -> Buffer.add_string out ("MODELERR=" ^ e));
   (* theorem coverage (a trailing @tag is stripped and counted by tools/check.py, never compared): does this history satisfy the
-     boolean hypothesis accepted_rules of C06_history_extracted / C07_balanced_extracted, i.e. is its whole run — results, heap,
+     boolean hypothesis accepted_rulesD of C06_history_extractedD / C07_balanced_extractedD (histories with cJSON_Duplicate included), i.e. is its whole run — results, heap,
      ledger — a consequence of the theorem?  Only failure-free histories of modelled calls can. *)
   (if a.(2) = "0" && ops <> [] && List.for_all (fun s -> external_op s = None) ops then
      match (try Some (List.map parse_op ops) with _ -> None) with
-     | Some os -> Buffer.add_string out (if accepted_rules os then " @under-theorem:C06_history_extracted" else " @outside-theorem:C06_history_extracted")
+     | Some os -> Buffer.add_string out (if accepted_rulesD os then " @under-theorem:C06_history_extractedD" else " @outside-theorem:C06_history_extractedD")
      | None -> ());
   Buffer.contents out
 
